@@ -219,30 +219,99 @@ def run(ck, ctx):
         tabs = [n for n in walk([r.value]) if is_ext_call(n, "astropy.table.Table")]
         ok = False
         detail = f"{len(tabs)} Table construction(s)"
+
+        def is_flat_call(n):
+            return n.op == "Call" and n.args and n.args[0].op == "Func" and \
+                n.args[0].attr.qualname in ("flatten_dict", "_flat")
+
+        def meta_parts(n, depth=0):
+            """the pieces a meta dictionary is assembled from, whatever assembles it (literal with ** spreads,
+            d1 | d2, dict(...), comprehension over the flattened items)"""
+            n = I.res(n, r.st)
+            if depth > 6:
+                return [("other", n)]
+            if n.op == "Dict":
+                out = []
+                for kd, v in I.dict_items(n):
+                    if kd[0] == "**":
+                        out += meta_parts(v, depth + 1)
+                    else:
+                        out.append(("item", kd, v))
+                return out
+            if n.op == "BinOp" and n.attr == "BitOr":
+                return meta_parts(n.args[0], depth + 1) + meta_parts(n.args[1], depth + 1)
+            if is_flat_call(n):
+                return [("flat", n)]
+            if is_ext_call(n, "builtins.dict") and len(n.args) == 2:
+                return meta_parts(n.args[1], depth + 1)
+            if n.op == "DictComp":
+                return [("comp", n)]
+            return [("other", n)]
+
+        def affixes(kel, it):
+            """(prefix, suffix) if the comprehension's key is  prefix + <item key> + suffix  with constant affixes"""
+            pieces = []
+
+            def rec(n):
+                if n.op == "FStr":
+                    for a_ in n.args:
+                        rec(a_)
+                elif n.op == "BinOp" and n.attr == "Add":
+                    rec(n.args[0])
+                    rec(n.args[1])
+                elif n.op == "Const" and isinstance(n.attr, str):
+                    pieces.append(n.attr)
+                elif n.op == "Elem" and n.attr == 0 and n.args[0].op == "IterElem" and n.args[0].args[0] is it:
+                    pieces.append(None)
+                else:
+                    pieces.append(n)
+            rec(kel)
+            if pieces.count(None) != 1 or any(not (x is None or isinstance(x, str)) for x in pieces):
+                return None
+            k = pieces.index(None)
+            return "".join(pieces[:k]), "".join(pieces[k + 1:])
         for t in tabs:
             pos, kws = call_args(t)
             meta = kws.get("meta")
-            if meta is None or meta.op != "Dict":
+            if meta is None:
                 continue
-            spreads = [v for kd, v in I.dict_items(meta) if kd[0] == "**"]
-            for sp0 in spreads:
-                _header_values_preserved(ck, I, sp0)
-                cands = [n for n in walk([sp0]) if n.op == "Call" and n.args[0].op == "Func" and
-                         n.args[0].attr.qualname in ("flatten_dict", "_flat")]
-                for sp in cands[:1]:
-                    p2, k2 = call_args(sp)
-                    dump = p2[0] if p2 else None
-                    pre = p2[1] if len(p2) > 1 else k2.get("parent_key")
-                    sep = k2.get("sep") or (p2[2] if len(p2) > 2 else None)
-                    ok_dump = dump is not None and dump.op == "MCall" and dump.attr[0] == "model_dump" and \
-                        len(dump.args) == 1 and dump.args[0].op == "Cfg" and dump.args[0].attr == ()
-                    ck.ob("R16.1", "the header is built from the whole model_dump() of the configuration "
-                          "(no include / exclude)", ok_dump, sp, "results_table.init", g.show(dump, 2) if dump is not None else "?")
-                    ck.ob("R16.1", f"flattened under the prefix '{PREFIX_W}'", pre is not None and pre.op == "Const" and
-                          pre.attr == PREFIX_W, sp, "results_table.init", g.show(pre, 1) if pre is not None else "?")
-                    ck.ob("R16.1", "path components are joined with a single space", sep is not None and sep.op == "Const"
-                          and sep.attr == " ", sp, "results_table.init", g.show(sep, 1) if sep is not None else "default '.'")
-                    ok = True
+            for part in meta_parts(meta):
+                comp_pre, comp_suf, flat = "", "", None
+                if part[0] == "flat":
+                    flat = part[1]
+                elif part[0] == "comp":
+                    comp = part[1]
+                    it = comp.args[0]
+                    src = it.args[0] if (it.op == "MCall" and it.attr[0] == "items" and len(it.args) == 1) or \
+                        it.op == "DictItems" else None
+                    inner = meta_parts(src) if src is not None else []
+                    if len(inner) == 1 and inner[0][0] == "flat":
+                        af = affixes(comp.args[1], it)
+                        if af is None:
+                            ck.ob("R16.1", "header keys are a constant prefix followed by the flattened key", None,
+                                  comp.args[1], "results_table.init", g.show(comp.args[1], 3))
+                            continue
+                        comp_pre, comp_suf = af
+                        flat = inner[0][1]
+                        _header_values_preserved(ck, I, comp)
+                if flat is None:
+                    continue
+                p2, k2 = call_args(flat)
+                dump = p2[0] if p2 else None
+                pre = p2[1] if len(p2) > 1 else k2.get("parent_key")
+                sep = k2.get("sep") or (p2[2] if len(p2) > 2 else None)
+                ok_dump = dump is not None and dump.op == "MCall" and dump.attr[0] == "model_dump" and \
+                    len(dump.args) == 1 and dump.args[0].op == "Cfg" and dump.args[0].attr == ()
+                ck.ob("R16.1", "the header is built from the whole model_dump() of the configuration "
+                      "(no include / exclude)", ok_dump, flat, "results_table.init", g.show(dump, 2) if dump is not None else "?")
+                pre_s = pre.attr if pre is not None and pre.op == "Const" and isinstance(pre.attr, str) else None
+                sep_s = sep.attr if sep is not None and sep.op == "Const" and isinstance(sep.attr, str) else None
+                whole = None if pre_s is None or sep_s is None else comp_pre + (pre_s + sep_s if pre_s else "")
+                ck.ob("R16.1", f"flattened under the prefix '{PREFIX_W}'", whole == PREFIX_W + " " and comp_suf == "",
+                      flat, "results_table.init", f"keys are {whole!r} + path + {comp_suf!r}")
+                ck.ob("R16.1", "path components are joined with a single space", sep_s == " ", flat,
+                      "results_table.init", g.show(sep, 1) if sep is not None else "default '.'")
+                ok = True
         ck.ob("R16.1", "results_table.init puts the flattened configuration into the table's meta", ok, r.value,
               "results_table.init", detail)
         # behaviour of the flattener, from the effects of its generator body
